@@ -151,6 +151,39 @@ def str_ctor_default(E, st, a):
 def str_ctor_move(E, st, a):
     this, other = a[0], a[1]
     S = Str(E, st, this); O = Str(E, st, other); S.init_local(); S.assign_bytes(O.data()); O.assign_bytes([]); return None
+def str_local_data(E, st, a): return a[0].add(16)
+def str_alloc_hider(E, st, a): E.store(st, a[0], 8, a[1]); return None          # _Alloc_hider(char* p, alloc): _M_p = p
+def str_M_data_set(E, st, a): E.store(st, a[0], 8, a[1]); return None
+def str_M_capacity_set(E, st, a): E.store(st, a[0].add(16), 8, a[1]); return None
+def str_M_set_length(E, st, a):
+    E.store(st, a[0].add(8), 8, a[1]); p = Str(E, st, a[0]).p(); E.store(st, Ptr(p.obj, E.addoff(p.off, a[1], 64, 1)), 1, 0); return None
+def str_S_copy_chars(E, st, a):
+    d, b, e = a
+    n = e.off - b.off
+    if n: E.memcpy(st, d, b, n)
+    return None
+def str_M_dispose(E, st, a): return str_dtor(E, st, a)
+def str_capacity(E, st, a): return Str(E, st, a[0]).cap()
+def str_begin(E, st, a): return Str(E, st, a[0]).p()
+def str_end(E, st, a):
+    S = Str(E, st, a[0]); p = S.p(); return p.add(S.size())
+def str_index(E, st, a):
+    p = Str(E, st, a[0]).p(); return Ptr(p.obj, E.addoff(p.off, a[1], 64, 1))
+def str_append_n(E, st, a): return str_append(E, st, a)
+def str_append_str(E, st, a):
+    S = Str(E, st, a[0]); S.assign_bytes(S.data() + Str(E, st, a[1]).data()); return a[0]
+def str_append_fill(E, st, a):
+    S = Str(E, st, a[0]); S.assign_bytes(S.data() + [a[2]] * a[1]); return a[0]
+def str_assign_n(E, st, a):
+    Str(E, st, a[0]).assign_bytes(E.read_bytes(st, a[1], a[2]) if a[2] else []); return a[0]
+def str_assign_copy(E, st, a):
+    if not (a[0] == a[1]): Str(E, st, a[0]).assign_bytes(Str(E, st, a[1]).data())
+    return a[0]
+def str_assign_move(E, st, a):
+    if not (a[0] == a[1]):
+        Str(E, st, a[0]).assign_bytes(Str(E, st, a[1]).data()); Str(E, st, a[1]).assign_bytes([])
+    return a[0]
+def str_resize1(E, st, a): return str_resize(E, st, [a[0], a[1], 0])
 def str_c_str(E, st, a): return Str(E, st, a[0]).p()
 def str_size(E, st, a): return Str(E, st, a[0]).size()
 def str_ctor_cstr(E, st, a):   # basic_string(const char*, const allocator&)
@@ -284,6 +317,23 @@ BASIC = {
     '_ZNSt7__cxx1112basic_stringIcSt11char_traitsIcESaIcEEpLEc': lambda E, st, a: (str_push_back(E, st, a), a[0])[1],
     '_ZNSt7__cxx1112basic_stringIcSt11char_traitsIcESaIcEEC1Ev': str_ctor_default, '_ZNSt7__cxx1112basic_stringIcSt11char_traitsIcESaIcEEC2Ev': str_ctor_default,
     '_ZNSt7__cxx1112basic_stringIcSt11char_traitsIcESaIcEEC1EOS4_': str_ctor_move, '_ZNSt7__cxx1112basic_stringIcSt11char_traitsIcESaIcEEC2EOS4_': str_ctor_move,
+    '_ZNSt7__cxx1112basic_stringIcSt11char_traitsIcESaIcEE13_M_local_dataEv': str_local_data, '_ZNKSt7__cxx1112basic_stringIcSt11char_traitsIcESaIcEE13_M_local_dataEv': str_local_data,
+    '_ZNSt7__cxx1112basic_stringIcSt11char_traitsIcESaIcEE12_Alloc_hiderC2EPcRKS3_': str_alloc_hider, '_ZNSt7__cxx1112basic_stringIcSt11char_traitsIcESaIcEE12_Alloc_hiderC1EPcRKS3_': str_alloc_hider,
+    '_ZNSt7__cxx1112basic_stringIcSt11char_traitsIcESaIcEE12_Alloc_hiderC2EPcOS3_': str_alloc_hider,
+    '_ZNSt7__cxx1112basic_stringIcSt11char_traitsIcESaIcEE7_M_dataEPc': str_M_data_set, '_ZNKSt7__cxx1112basic_stringIcSt11char_traitsIcESaIcEE7_M_dataEv': str_c_str,
+    '_ZNSt7__cxx1112basic_stringIcSt11char_traitsIcESaIcEE11_M_capacityEm': str_M_capacity_set,
+    '_ZNSt7__cxx1112basic_stringIcSt11char_traitsIcESaIcEE13_M_set_lengthEm': str_M_set_length,
+    '_ZNSt7__cxx1112basic_stringIcSt11char_traitsIcESaIcEE13_S_copy_charsEPcPKcS7_': str_S_copy_chars,
+    '_ZNSt7__cxx1112basic_stringIcSt11char_traitsIcESaIcEE10_M_disposeEv': str_M_dispose,
+    '_ZNKSt7__cxx1112basic_stringIcSt11char_traitsIcESaIcEE8capacityEv': str_capacity,
+    '_ZNKSt7__cxx1112basic_stringIcSt11char_traitsIcESaIcEE5beginEv': str_begin, '_ZNSt7__cxx1112basic_stringIcSt11char_traitsIcESaIcEE5beginEv': str_begin,
+    '_ZNKSt7__cxx1112basic_stringIcSt11char_traitsIcESaIcEE3endEv': str_end, '_ZNSt7__cxx1112basic_stringIcSt11char_traitsIcESaIcEE3endEv': str_end,
+    '_ZNKSt7__cxx1112basic_stringIcSt11char_traitsIcESaIcEEixEm': str_index, '_ZNSt7__cxx1112basic_stringIcSt11char_traitsIcESaIcEEixEm': str_index,
+    '_ZNSt7__cxx1112basic_stringIcSt11char_traitsIcESaIcEE6appendEPKcm': str_append_n, '_ZNSt7__cxx1112basic_stringIcSt11char_traitsIcESaIcEE6appendERKS4_': str_append_str,
+    '_ZNSt7__cxx1112basic_stringIcSt11char_traitsIcESaIcEEpLERKS4_': str_append_str, '_ZNSt7__cxx1112basic_stringIcSt11char_traitsIcESaIcEE6appendEmc': str_append_fill,
+    '_ZNSt7__cxx1112basic_stringIcSt11char_traitsIcESaIcEE6assignEPKcm': str_assign_n,
+    '_ZNSt7__cxx1112basic_stringIcSt11char_traitsIcESaIcEEaSERKS4_': str_assign_copy, '_ZNSt7__cxx1112basic_stringIcSt11char_traitsIcESaIcEEaSEOS4_': str_assign_move,
+    '_ZNSt7__cxx1112basic_stringIcSt11char_traitsIcESaIcEE6resizeEm': str_resize1,
     '_ZNKSt7__cxx1112basic_stringIcSt11char_traitsIcESaIcEE5c_strEv': str_c_str, '_ZNKSt7__cxx1112basic_stringIcSt11char_traitsIcESaIcEE4dataEv': str_c_str,
     '_ZNKSt7__cxx1112basic_stringIcSt11char_traitsIcESaIcEE4sizeEv': str_size, '_ZNKSt7__cxx1112basic_stringIcSt11char_traitsIcESaIcEE6lengthEv': str_size,
     '_ZNSt7__cxx1112basic_stringIcSt11char_traitsIcESaIcEED2Ev': str_dtor,
